@@ -392,6 +392,10 @@ func run(c *core.Ctx) error {
 	// ---------------- 0b. readers against a fast writer, in a process of its own
 	runStorm(c)
 
+	// ---------------- 0c'. a write fault inside the persister
+	if err := persistFault(c); err != nil {
+		return err
+	}
 	// ---------------- 0c. Close that reports an error still closes
 	if err := closeFails(c); err != nil {
 		return err
